@@ -429,3 +429,73 @@ func init() {
 	h.Prop("parse_determinism", 6000, 100000, genDet, runDet)
 	h.Prop("immutable_shareable", 1200, 20000, genExec, runExec)
 }
+
+// ---------------------------------------------------------------------------
+// the error of a run that cannot be set up is the same every time: several
+// entries of Config.Funcs are unusable, and Go walks maps in random order
+
+type SetupCase struct {
+	Bad []string `json:"bad"` // names of unusable entries (values by name below)
+}
+
+var badFuncValues = map[string]any{
+	"a_int": 1, "b_str": "x", "c_float": 2.5, "d_nil": nil, "e_chan": func(c chan int) {}, "f_three": func() (int, int, int) { return 0, 0, 0 },
+	"g_map": func(m map[string]int) {}, "h_ptr": func(p *int) {}, "print": func() {}, "length": func() {},
+}
+
+func genSetup(t *rapid.T) SetupCase {
+	var names []string
+	for n := range badFuncValues {
+		names = append(names, n)
+	}
+	sort.Strings(names)
+	k := rapid.IntRange(2, 6).Draw(t, "nbad")
+	var bad []string
+	for len(bad) < k {
+		n := rapid.SampledFrom(names).Draw(t, "bad")
+		dup := false
+		for _, b := range bad {
+			dup = dup || b == n
+		}
+		if !dup {
+			bad = append(bad, n)
+		}
+	}
+	sort.Strings(bad)
+	return SetupCase{Bad: bad}
+}
+
+func runSetup(x *h.Ctx, c SetupCase) string {
+	prog, err := parser.ParseProgram([]byte(`BEGIN { print 1 }`), nil)
+	if err != nil {
+		return "harness: " + err.Error()
+	}
+	seen := map[string]int{}
+	for i := 0; i < 40; i++ {
+		funcs := map[string]any{"ok_add": func(a, b int) int { return a + b }}
+		for _, n := range c.Bad {
+			funcs[n] = badFuncValues[n]
+		}
+		var out bytes.Buffer
+		_, err := interp.ExecProgram(prog, &interp.Config{Output: &out, Stdin: strings.NewReader(""), Environ: []string{}, Funcs: funcs})
+		msg := "<nil>"
+		if err != nil {
+			msg = err.Error()
+		}
+		seen[msg+"|"+out.String()]++
+	}
+	if len(seen) > 1 {
+		var l []string
+		for m, n := range seen {
+			l = append(l, fmt.Sprintf("%dx %s", n, m))
+		}
+		sort.Strings(l)
+		return fmt.Sprintf("40 executions of one Program with the same configuration ended %d different ways (unusable Funcs entries: %v):\n  %s", len(seen), c.Bad, strings.Join(l, "\n  "))
+	}
+	x.Nontrivial(strings.Join(c.Bad, ","))
+	return ""
+}
+
+func init() {
+	h.Prop("setup_error_is_deterministic", 200, 2000, genSetup, runSetup)
+}
